@@ -19,18 +19,18 @@ from harness.coqio import lit
 
 META = {
     'level': 'proof',
-    'technique': 'Coq model of the TOPDirector line machine with proved decision rules (include / #error activity, decoration invariance, molecule expansion) and a proved inlining theorem for includes of table-only files (simulation argument); three-way differential correspondence (include tree, flattened file, model) on generated include trees',
+    'technique': 'Coq model of the TOPDirector line machine with proved decision rules (include / #error activity, decoration invariance, molecule expansion) and a proved inlining theorem for includes of files without molecule types (simulation argument); three-way differential correspondence (include tree, flattened file, model) on generated include trees',
     'gen_deps': ['Gen_top'],
     'eval_deps': ['theories/model/TopPre.vo', 'theories/gen/Gen_top.vo', 'theories/proofs/C08_inline_base.vo'],
     'level_text': ("Theorems in Coq (Props/C08.v) about the executable model of the topology reader: an #include is read and an #error "
                    "aborts exactly when no conditional is open or the open #ifdef/#ifndef (after #else inversion) holds for the macros "
                    "defined so far; cleaning removes comments and surrounding whitespace and tokenisation ignores the amount of inner "
                    "whitespace, so decorated files read identically; blank, comment-only and star lines are skipped; the molecule list "
-                   "is the [molecules] entries expanded in order. Textual inlining is a theorem for the tables "
+                   "is the [molecules] entries of the whole include tree, in textual order, expanded. Textual inlining is a theorem for files without molecule types "
                    "(C08_include_is_textual_inlining, by a simulation between the fresh director the reader starts for an included file and "
                    "the including director run over the same lines, over the section table regenerated from the source): an unconditional "
-                   "#include of a file holding only top-level sections (defaults, atom types, type tables, with defines, conditionals and "
-                   "nested includes) is read exactly as its lines in place of the #include line, nested includes relative to the included "
+                   "#include of a file holding only top-level sections (defaults, atom types, type tables, [ system ] / [ molecules ] lists, "
+                   "with defines, conditionals and nested includes) is read exactly as its lines in place of the #include line, nested includes relative to the included "
                    "file, and leaves only the current-section register behind, which the next header overwrites. For molecule types, "
                    "conditional includes and the remaining shapes the equivalence with the flattened file is established by "
                    "correspondence: every generated include tree is read by the real parser as a tree and as the "
